@@ -100,6 +100,7 @@ func optF64(c *Ctx, label string, basePresent bool, vals ...float64) *float64 {
 func sp(s string) *string { return &s }
 
 func marshalFeed(m *gtfsrt.FeedMessage) []byte {
+	fieldcovRecord(m)
 	b, err := proto.Marshal(m)
 	if err != nil {
 		harnessBug("proto.Marshal: %v", err)
@@ -109,6 +110,7 @@ func marshalFeed(m *gtfsrt.FeedMessage) []byte {
 
 // marshalFeedPartial encodes a message whose required fields may be missing.
 func marshalFeedPartial(m *gtfsrt.FeedMessage) []byte {
+	fieldcovRecord(m)
 	b, err := proto.MarshalOptions{AllowPartial: true}.Marshal(m)
 	if err != nil {
 		harnessBug("proto.Marshal: %v", err)
